@@ -66,18 +66,27 @@ ProducibleOf(kind, x) ==
     [] kind = "block" -> ProducibleRec(HeaderKinds, x.Header)
     [] kind \in {"group", "member"} -> TRUE
 
+(* does the value hold a time whose zone offset is negative with seconds (see WireCodec!NormField)? the
+   verdict tags of such an event carry the suffix -time-negsec *)
+TimesOf(kind, x) ==
+  CASE kind = "header" -> {x.PreTime, x.CurTime}
+    [] kind = "block" -> {x.Header.PreTime, x.Header.CurTime}
+    [] kind = "group" -> {x.Header.BeginTime}
+    [] OTHER -> {}
+Quirk(kind, x) == IF \E t \in TimesOf(kind, x) : NegSecOffset(t) THEN "-time-negsec" ELSE ""
+
 IsObj(p) == p.res = "object"
 
 (* the strong law on (x, x1): same content, same identifying hash *)
 Strong(kind, e, x, x1, h0, h1, p1) ==
   IF ~IsObj(p1) THEN <<"Inv.RoundTrip.lost:" \o kind>>
-  ELSE Tag(ContentOf(kind, x1) = ContentOf(kind, x), "Inv.RoundTrip.content:" \o kind) \o
-       Tag(h1 = h0, "Inv.RoundTrip.hash:" \o kind)
+  ELSE Tag(ContentOf(kind, x1) = ContentOf(kind, x), "Inv.RoundTrip.content" \o Quirk(kind, x) \o ":" \o kind) \o
+       Tag(h1 = h0, "Inv.RoundTrip.hash" \o Quirk(kind, x) \o ":" \o kind)
 
 StrongT(kind, who, x, x1, h0, h1, p1) ==
   IF ~IsObj(p1) THEN <<"Inv.RoundTrip.lost:" \o who>>
-  ELSE Tag(ContentOf(kind, x1) = ContentOf(kind, x), "Inv.RoundTrip.content:" \o who) \o
-       Tag(h1 = h0, "Inv.RoundTrip.hash:" \o who)
+  ELSE Tag(ContentOf(kind, x1) = ContentOf(kind, x), "Inv.RoundTrip.content" \o Quirk(kind, x) \o ":" \o who) \o
+       Tag(h1 = h0, "Inv.RoundTrip.hash" \o Quirk(kind, x) \o ":" \o who)
 
 PanicTag(kind, p) == IF p.res \in {"panic", "marshal-panic"}
                      THEN <<"Inv.Total.panic:" \o kind \o ":" \o p.where>> ELSE <<>>
@@ -96,8 +105,8 @@ JudgeRoundTrip(e) ==
         PanicTag(k, e.pass2) \o
         (IF e.pass2.res = "skipped" THEN <<>>
          ELSE IF ~IsObj(e.pass2) THEN <<"Inv.FixedPoint.lost:" \o k>>
-         ELSE Tag(e.x2 = e.x1, "Inv.FixedPoint.content:" \o k) \o
-              Tag(e.h2 = e.h1, "Inv.FixedPoint.hash:" \o k)))
+         ELSE Tag(e.x2 = e.x1, "Inv.FixedPoint.content" \o Quirk(e.kind, e.x1) \o ":" \o k) \o
+              Tag(e.h2 = e.h1, "Inv.FixedPoint.hash" \o Quirk(e.kind, e.x1) \o ":" \o k)))
 
 JudgeParse(e) ==
   LET k == e.kind
